@@ -791,11 +791,42 @@ def inv1_lits(fs):
 
 
 def validated_recurrence(I, fn_name):
+    vr = _validated_recurrence(I, fn_name)
+    if vr is None:
+        return None
+    # a loop that counts the bytes still to go (`remaining`, starting at len) instead of the offset reached: the same
+    # recurrence in the variable offset = len - remaining
+    init = vr["init"]
+    sa = lin(init).single_atom() if not lin(init).is_const() else None
+    if sa and sa[1] == 1 and sa[0][0] == "len" and lin(init) == Lin.atom(sa[0]):
+        LEN = Lin.atom(sa[0])
+        old = vr["atom"]
+        new_atom = ("sym", old[1] + "~offset", old[2])
+        m = {old: LEN - Lin.atom(new_atom)}
+        sub = lambda L: subst_deep(L, m)
+        out = dict(vr)
+        out["atom"] = new_atom
+        out["init"] = lin(0)
+        out["facts"] = [(l[0], sub(l[1])) for l in vr["facts"]]
+        out["guard"] = [(l[0], sub(l[1])) for l in vr["guard"]]
+        out["step"] = LEN - sub(vr["step"])
+        out["final"] = LEN - sub(vr["final"])
+        out["returns"] = [(k, v, [(l[0], sub(l[1])) if l[0] in ("le", "eq", "ne") else l for l in d]) for k, v, d in vr["returns"]]
+        out["renamed"] = m
+        # the old variable was an unsigned integer: 0 <= len - offset is now an explicit fact
+        rng = ("le", Lin.atom(new_atom) - LEN)
+        out["renamed_facts"] = [rng]
+        out["facts"] = out["facts"] + [rng]
+        return out
+    return vr
+
+
+def _validated_recurrence(I, fn_name):
     """from the loop reports of a constructor: a loop with one carried integer, one back-edge path,
     whose other exits are all returns — its per-iteration facts hold at every point of the chain
     o0, step(o0), ... at which the guard held, on every path that reaches the code after the loop"""
     for rep in I.loop_reports:
-        if rep.fn != fn_name or rep.kind != "loop":
+        if rep.kind != "loop":
             continue
         if len(rep.carried) != 1 or len(rep.backs) != 1:
             continue
@@ -820,7 +851,7 @@ def validated_recurrence(I, fn_name):
                 "returns": rep.exit_kinds, "final": Lin.atom(atom), "form": "while"}
     # the same recurrence written with the test at the end of the body (`loop { checks; o += L; if o >= len { break } }`)
     for rep in I.loop_reports:
-        if rep.fn != fn_name or rep.kind != "loop" or len(rep.carried) != 1 or len(rep.backs) != 1:
+        if rep.kind != "loop" or len(rep.carried) != 1 or len(rep.backs) != 1:
             continue
         atom, init = rep.carried[0]
         delta, new = rep.backs[0]
